@@ -142,6 +142,9 @@ def check_string(ctx, s, idx, rng, drive=False):
         feats = GL_FEATURES if pathmode else FN_FEATURES
         try:
             esc = F.escape(s) if mod is F else G.escape(s, unix=not win)
+            if mod is G and not win and G.escape(s) != esc:
+                # on this platform the default (unix=None) is the Unix escape
+                ctx.disagree('glob.escape() with the default `unix` differs from unix=True on a POSIX host', {'api': api, 's': s, 'default': G.escape(s), 'unix_true': esc})
         except Exception as e:  # noqa: BLE001
             ctx.disagree(f'{api} raised {type(e).__name__}', {'api': api, 's': s, 'exception': repr(e)})
             continue
